@@ -1,3 +1,4 @@
 ---- MODULE MC_Invalid ----
-EXTENDS Invalid
+EXTENDS Invalid, SequencesExt
+ASSUME PrintT(<<"F", SetToSeq(Flavours)>>)
 ====
